@@ -97,8 +97,9 @@ def run(tier, seed, model_ok, spec_ok, replay=None):
                                                       {"path": ["a"], "b": 1}]))
         cs = sg.cond_spec(t)
         if cs is not None:
+            cs2 = copy.deepcopy(cs)      # taken BEFORE the first parse: a parser that writes into its input must not spoil the next case
             check("condition", v.conditions.ConditionLike.from_spec, cs, viol, dist)
-            check("condition(json)", v.conditions.ConditionLike.from_json_like, copy.deepcopy(cs), viol, dist)
+            check("condition(json)", v.conditions.ConditionLike.from_json_like, cs2, viol, dist)
         pt = normalise_path(limit_parts(pg.path(doc, max_len=3, mods_p=0.4)))
         for part in pt.parts:
             ps = sg.part_spec(part)
@@ -106,8 +107,8 @@ def run(tier, seed, model_ok, spec_ok, replay=None):
                 check("part", v.datapath.ContainerValue.from_spec, ps, viol, dist)
         spec = sg.path_spec(pt)
         if spec is not None:
-            check("path", v.DataPath.from_spec, spec, viol, dist)
             parts = copy.deepcopy(list(spec.values())[0])
+            check("path", v.DataPath.from_spec, spec, viol, dist)
             check("part-specs", lambda s: v.DataPath.from_part_specs(*s), parts, viol, dist)
         rt = rg.rule(doc, cast_p=0.5)
         normalise_cond(rt.cond)
@@ -127,8 +128,9 @@ def run(tier, seed, model_ok, spec_ok, replay=None):
                 rs["doc"] = {"examples": ["e"]}
             elif k < 0.8:
                 rs["doc"] = ["a ", " b"]
+            rs2 = [copy.deepcopy(rs), copy.deepcopy(rs)]
             check("rule", v.Rule.from_spec, rs, viol, dist)
-            check("schema", v.Schema.from_json_like, [copy.deepcopy(rs), copy.deepcopy(rs)], viol, dist)
+            check("schema", v.Schema.from_json_like, rs2, viol, dist)
     total = sum(dist.values())
     return {"evaluations": total, "k_cases": 0, "o_cases": total, "nontrivial": sum(c for k, c in dist.items() if k.endswith(":ok")),
             "rule": "well-formed condition specs (25% with data-path arguments, 20% with literal / escaped 'path' mappings), part "
